@@ -57,9 +57,10 @@ func (c *Cands) addIdxFor(t Term, arr Term) {
 	if c == nil || strings.Contains(t.S, "?q") {
 		return
 	}
+	_, existed := c.idx[t.S]
 	put(c.idx, t.S, c.now())
-	if arr.S == "" || c.symf == nil {
-		return
+	if arr.S == "" || c.symf == nil || existed {
+		return // tags come from the first use only: instantiating a hypothesis at a candidate must not retag it
 	}
 	if c.tags == nil {
 		c.tags = map[string]map[string]bool{}
@@ -697,12 +698,14 @@ func (e *Env) call(x *Expr) TV {
 		c.sink = e.x.b.child()
 		vars := map[string]TV{}
 		for i, p := range sf.Params {
-			vars[p.Name] = args[i]
+			a := c.Tr(x.Args[i]) // canonical (unshared) form of the argument
+			a.Ty = args[i].Ty
+			vars[p.Name] = a
 		}
 		cn := c.with(vars)
 		cn.depth = e.depth + 1
 		body := cn.Bool(sf.Body)
-		name := "opq_" + sf.Name + "_" + shortHash(body.S)
+		name := "opq_" + sf.Name + "_" + shortHash(e.x.expandDefs(body.S))
 		e.x.b.DeclFun(name, nil, SBool)
 		return TV{Term{name, SBool}, nil}
 	}
@@ -961,6 +964,13 @@ func (e *Env) quant(x *Expr) TV {
 			}
 			return ts[a] < ts[b]
 		})
+		if debugInst && e.useCand && pt.sort == SInt {
+			var all []string
+			for r := range e.cands.idx {
+				all = append(all, fmt.Sprintf("%s%v", r, e.cands.tags[r]))
+			}
+			fmt.Fprintf(os.Stderr, "  ALLIDX want=%v %v\n", e.arrayTagsFor(body, q.Name), all)
+		}
 		if debugInst && e.useCand {
 			fmt.Fprintf(os.Stderr, "INST %s var %s: %d cands %v (from %s)\n", e.skTag, q.Name, len(ts), ts, truncate(body.String(), 80))
 		}
@@ -1164,7 +1174,26 @@ func canon(c conj) (s string, ok bool) {
 	n.cands = nil
 	n.facts = nil
 	n.sink = c.env.x.b.child()
-	return n.Bool(c.expr).S, true
+	return c.env.x.expandDefs(n.Bool(c.expr).S), true
+}
+
+// expandDefs replaces the names of the main builder's define-funs by their bodies (bounded), so that
+// two syntactically different ways of naming the same term have the same canonical form.
+func (x *Exec) expandDefs(s string) string {
+	for round := 0; round < 6 && len(s) < 60000; round++ {
+		changed := false
+		s = nameRe.ReplaceAllStringFunc(s, func(n string) string {
+			if d, ok := x.b.defs[n]; ok && len(d) < 2000 {
+				changed = true
+				return d
+			}
+			return n
+		})
+		if !changed {
+			break
+		}
+	}
+	return s
 }
 
 // arrayTagsFor: the symbols of the arrays that variable v indexes inside body (translated in the
